@@ -1,8 +1,11 @@
 (* C06 -- Remote peers can reach only objects they were given or can name.
-   Property theorems only; model in lib/Reach.v (on the translated gen/ReachGen.v), proofs in lib/ReachProofs.v. *)
+   Property theorems only; model in lib/Reach.v (on the translated gen/ReachGen.v), proofs in lib/ReachProofs.v;
+   second layer (dispatcher assembled from the statement-by-statement translation gen/ReachDispGen.v; reference arguments):
+   lib/ReachDeep.v, lib/ReachDeepProofs.v. *)
 From Coq Require Import ZArith List String Bool.
 Import ListNotations.
-Require Import Verif.lib.PyLite Verif.gen.ReachGen Verif.lib.Reach Verif.lib.ReachProofs.
+Require Import Verif.lib.PyLite Verif.gen.ReachGen Verif.gen.ReachDispGen Verif.lib.Reach Verif.lib.ReachProofs
+  Verif.lib.ReachDeep Verif.lib.ReachDeepProofs.
 Local Open Scope Z_scope.
 
 (* "a peer can cause code to run only on (a) [the broker's name lookup / release entry points: id 0] ... (b) objects that
@@ -115,9 +118,7 @@ Print Assumptions C06_classes.
    (translated default-registry test: DefaultIfNone) *)
 Theorem C06_registry_origin : forall w h n cls,
   sget n (s_copy (fst (run w init h))) = Some cls -> In n copyable_names \/ In (RegisterCopy n cls) h.
-Proof.
-  intros w h n cls H. destruct (copy_origin w h init n cls H) as [H'|H']; [left; eapply init_copy_names; eauto | right; exact H'].
-Qed.
+Proof. exact registry_origin. Qed.
 Print Assumptions C06_registry_origin.
 
 (* the set of OPEN types is closed: everything accepted below the top level is plain data or one of the four reference
@@ -127,7 +128,7 @@ Theorem C06_open_types_closed :
   forallb (fun t => negb (mem_type [t] open_types))
           ["instance"; "class"; "module"; "function"; "method"; "call"; "answer"; "error"; "copyable"]%string = true /\
   top_types = [["answer"]; ["call"]; ["error"]]%string.
-Proof. split; [exact open_types_closed | split; [exact no_code_types | exact top_types_pinned]]. Qed.
+Proof. exact open_types_closed_all. Qed.
 Print Assumptions C06_open_types_closed.
 
 (* "every other object id, name, method name or class name fails that request": a call that entered anything used only
@@ -140,13 +141,26 @@ Theorem C06_bad_argument_never_enters : forall w st c req clid m args st' r e,
 Proof. exact bad_argument_never_enters. Qed.
 Print Assumptions C06_bad_argument_never_enters.
 
-(* "... without side effects": a refused request changes nothing; a dropped connection (the refusal for an unknown
-   your-reference or an undecodable method name) loses its own table and nothing else; a call entering an application
-   object changes no table; other top-level sequences change nothing *)
-Theorem C06_refusal_pure : forall w st c req clid m args st' r,
+(* "... without side effects".  FULL statement: "every other object id, name, method name or class name fails THAT REQUEST and
+   changes nothing".  Proved: _partial -- a request answered with an error (Reject) or arriving on a dead connection changes
+   none of the tables of lib/Reach.v (name tables, registry, declarations, both export tables, counters) and emits no reference.
+   What is missing, each with a machine-checked witness replayed on the real code:
+     (1) C06_unknown_yourref_drops_connection_refuted: a your-reference ARGUMENT with an unknown id does not fail that request but
+         drops the whole connection (outcome Aborted, C06_dropped_local says exactly what is lost);
+     (2) C06_refusal_pure_full_refuted: against the state that also holds the proxy table and the Tub's dials, a request refused
+         because of a LATER argument has already created a proxy / dialled a gift / instantiated a registered class.
+   A call entering an application object changes no table; other top-level sequences change nothing. *)
+Theorem C06_refusal_pure_partial : forall w st c req clid m args st' r,
   step w st (Msg c req clid m args) = (st', r) -> r_out r = Reject \/ r_out r = Dead -> st' = st /\ r_sent r = [].
 Proof. exact refusal_pure. Qed.
-Print Assumptions C06_refusal_pure.
+Print Assumptions C06_refusal_pure_partial.
+
+Theorem C06_unknown_yourref_drops_connection_refuted :
+  exists w h st rs, run w init h = (st, rs) /\ h = yr_hist /\
+    map r_out rs = [Local; Local; Aborted] /\ c_alive (get_conn st CA) = false /\ c_exports (get_conn st CA) = [] /\
+    List.length (c_exports (get_conn (fst (run w init (firstn 2 h))) CA)) = 2%nat.
+Proof. exact unknown_yourref_drops_connection_refuted. Qed.
+Print Assumptions C06_unknown_yourref_drops_connection_refuted.
 
 Theorem C06_dropped_local : forall w st c req clid m args st' r,
   step w st (Msg c req clid m args) = (st', r) -> r_out r = Aborted ->
@@ -190,3 +204,116 @@ Theorem C06_conn_local : forall w c h1 h2 s1 s2,
   results_on c h1 (snd (run w s1 h1)) = results_on c h2 (snd (run w s2 h2)).
 Proof. exact id_locality. Qed.
 Print Assumptions C06_conn_local.
+
+(* ============================== round 5: the translated dispatch path ==============================
+   "id lookup or Violation", "remote_ prefix dispatch", "only through methods exposed for remote use":
+   obj_call_T is assembled from the Gallina terms that translate/g_reachdisp.py produces, statement by statement, from
+   Broker.getMyReferenceByCLID, CallUnslicer.receiveChild (stages 1 and 2), Broker._doCall, Referenceable.doRemoteCall and
+   YourReferenceUnslicer.receiveClose.  On every well-kinded table it IS the hand-written dispatcher all theorems above are about. *)
+Theorem C06_translated_dispatch : forall w copy cn clid m args,
+  kinds_ok w cn -> clid <> 0 -> obj_call_T w copy cn clid m args = obj_call w copy cn clid m args.
+Proof. exact obj_call_T_eq. Qed.
+Print Assumptions C06_translated_dispatch.
+
+(* "callable-by-reference": in every state any history leads to, negative ids denote bound methods / functions and positive
+   ids Referenceables (so the well-kindedness above is no restriction) *)
+Theorem C06_negative_ids_are_callables : forall w h st rs c k o rc,
+  run w init h = (st, rs) -> zget k (c_exports (get_conn st c)) = Some (o, rc) ->
+  (k < 0 -> o_kind (w_obj w o) = KCallable) /\ (0 < k -> o_kind (w_obj w o) = KObj).
+Proof. exact kinds_reachable. Qed.
+Print Assumptions C06_negative_ids_are_callables.
+
+(* "not yet released": the translated Broker.remote_decref (with the translated ReferenceableTracker.decref inside) is the
+   model's decref, and it forgets the object in myReferenceByPUID exactly when it forgets the id in myReferenceByCLID *)
+Theorem C06_translated_decref : forall cn k n, decref_T cn k n = decref cn k n.
+Proof. exact decref_T_eq. Qed.
+Print Assumptions C06_translated_decref.
+
+Theorem C06_decref_both_tables : forall (ex : list (Z * (Z * Z))) k n byclid bypuid o rc,
+  gen_remote_decref tracker_decref ex (puid_table ex) k n = XOk (byclid, bypuid) -> zget k ex = Some (o, rc) ->
+  (zget k byclid = None <-> zget o bypuid = None).
+Proof. exact decref_both_tables. Qed.
+Print Assumptions C06_decref_both_tables.
+
+(* end to end: on every history the machine that runs the translated code and the model agree, state by state and result by
+   result; every history-level theorem above therefore speaks about the translated code *)
+Theorem C06_translated_history : forall w h, run_T w init h = run w init h.
+Proof. exact run_T_eq. Qed.
+Print Assumptions C06_translated_history.
+
+(* ============================== round 5: reference arguments ==============================
+   A call may carry (my-reference k) -- the peer's own object -- and (their-reference g url) -- a gift -- among its arguments.
+   SIMULATION: if such a call enters anything, the core model makes the same step for the call without them; so C06_calls,
+   C06_instance_interface_enforced, C06_classes, C06_bad_argument_never_enters hold for calls with arbitrary arguments. *)
+Theorem C06_reference_arguments_simulate : forall w x c req clid m xs x' r e,
+  all_kinds_ok w (xs_core x) -> clid <> 0 ->
+  xstep w x (XMsg c req clid m xs) = (x', r) -> r_out (xr_core r) = Enter e ->
+  step w (xs_core x) (Msg c req clid m (strip xs)) = (xs_core x', xr_core r).
+Proof. exact xcall_simulates. Qed.
+Print Assumptions C06_reference_arguments_simulate.
+
+(* "a peer can cause code to run only on ...", for what the entered code is HANDED: position by position, a local object only
+   for a your-reference this connection's own table resolves (never for a my-reference: that yields a proxy of this
+   connection for the peer's object; never for a gift: that yields what the dial returned), the Broker only for id 0, a fresh
+   instance only of a registered class *)
+Theorem C06_delivered_values_justified : forall ag w copy cn clid m xs e,
+  r_out (xr_core (xobj_call ag w copy cn clid m xs)) = Enter e ->
+  Forall2 (justified copy (c_exports cn)) xs (xr_argv (xobj_call ag w copy cn clid m xs)).
+Proof. exact xcall_argv_justified. Qed.
+Print Assumptions C06_delivered_values_justified.
+
+Theorem C06_classes_any_arguments : forall ag w copy cn clid m xs cls,
+  In cls (r_inst (xr_core (xobj_call ag w copy cn clid m xs))) ->
+  exists n, In (XA (ACopyable n)) xs /\ sget n copy = Some cls.
+Proof. exact xcall_classes. Qed.
+Print Assumptions C06_classes_any_arguments.
+
+(* a gift makes the Tub dial only when gifts are accepted, only the URLs the message itself carries; proxies are created
+   only for the message's own my-references; and a call with a gift enters nothing unless gifts are accepted and the dial
+   succeeded *)
+Theorem C06_proxies_and_dials_justified : forall ag w copy cn clid m xs,
+  (forall k, In k (xr_yours (xobj_call ag w copy cn clid m xs)) -> In (XMyRef k) xs) /\
+  (forall g u, In (g, u) (xr_dial (xobj_call ag w copy cn clid m xs)) -> ag = true /\ exists ok, In (XTheirRef g u ok) xs).
+Proof. exact xcall_effects_justified. Qed.
+Print Assumptions C06_proxies_and_dials_justified.
+
+(* "every other object id ... fails that request without side effects", with arbitrary arguments: an id this connection's
+   table does not hold is refused AT THE ID -- nothing is instantiated, no proxy is created, nothing is dialled *)
+Theorem C06_unheld_id_inert : forall ag w copy cn clid m xs,
+  clid <> 0 -> zget clid (c_exports cn) = None ->
+  xobj_call ag w copy cn clid m xs = {| xr_core := res0 Reject; xr_argv := []; xr_yours := []; xr_dial := [] |}.
+Proof. exact xcall_unheld_id_inert. Qed.
+Print Assumptions C06_unheld_id_inert.
+
+Theorem C06_gift_gate : forall ag w copy cn clid m xs e g u ok,
+  r_out (xr_core (xobj_call ag w copy cn clid m xs)) = Enter e -> In (XTheirRef g u ok) xs -> ag = true /\ ok = true.
+Proof. exact xcall_gift_gate. Qed.
+Print Assumptions C06_gift_gate.
+
+(* "... without side effects", against the whole Tub + both brokers: entered or refused, with whatever arguments, a call to an
+   application object leaves name table, registry, declarations and BOTH export tables alone (or drops its own connection),
+   and never touches the other connection's proxy table *)
+Theorem C06_tables_unchanged_any_arguments : forall w x c req clid m xs x' r,
+  clid <> 0 -> xstep w x (XMsg c req clid m xs) = (x', r) ->
+  (r_out (xr_core r) <> Aborted /\ xs_core x' = xs_core x) \/
+  (r_out (xr_core r) = Aborted /\ xs_core x' = set_conn (xs_core x) c (drop_conn (get_conn (xs_core x) c))).
+Proof. exact xcall_tables_unchanged. Qed.
+Print Assumptions C06_tables_unchanged_any_arguments.
+
+Theorem C06_other_proxies_unchanged : forall w x c req clid m xs x' r c',
+  c' <> c -> xstep w x (XMsg c req clid m xs) = (x', r) -> get_yours x' c' = get_yours x c'.
+Proof. exact xcall_other_proxies_unchanged. Qed.
+Print Assumptions C06_other_proxies_unchanged.
+
+(* FULL statement "a refused request changes nothing at all in the broker": REFUTED for the faithful model (witness replayed on
+   the real code by the harness, signature oracle/refused-request-left-proxy-or-dial): arguments are unsliced before the
+   request is known to be deliverable, so a request refused because of a LATER argument has already created a proxy in its own
+   connection's yourReferenceByCLID, made the Tub dial the gift's URL and instantiated a registered class.  What IS unchanged
+   is stated by C06_refusal_pure / C06_tables_unchanged_any_arguments. *)
+Theorem C06_refusal_pure_full_refuted :
+  exists w x c req clid m xs x' r,
+    xstep w x (XMsg c req clid m xs) = (x', r) /\ r_out (xr_core r) = Reject /\
+    xs_core x' = xs_core x /\
+    get_yours x c = [] /\ get_yours x' c = [5] /\ xr_dial r = [(1, UForeign)] /\ r_inst (xr_core r) = [-1].
+Proof. exact refusal_pure_full_refuted. Qed.
+Print Assumptions C06_refusal_pure_full_refuted.
